@@ -1,5 +1,5 @@
 import json, subprocess, sys, os
-WT="/tmp/wt-c11m"
+WT=os.environ.get("MUT_WT","/tmp/wt-int")
 prop=sys.argv[1]; tests=sys.argv[2:]
 for m in json.load(open(f"/verif/sensitivity/mutants_{prop}.json")):
     subprocess.run(["git","-C",WT,"checkout","-q","--","."])
